@@ -290,6 +290,9 @@ def check(repo, rep, tier):
     r_validation(repo, rep)
     r_chunks(repo, rep)
     r_gather(repo, rep)
+    from ..lints import r_serialisation_complete
+    r_serialisation_complete(repo, rep, 'R11.3', [('depccg/tree.py', 'Tree')],
+                             'with more than one worker process the trees come back through pickle and differ from those of a single-process run')
     ti = rp.r_category_table(repo, rep, 'R11.5')
     rp.r_call_locals(repo, rep, 'R11.5')
     if ti:
